@@ -9,7 +9,7 @@ LawPts_t == LimPts(I_t, I0_t, Z_w, A_t) \cup ExtPts(I_t, I0_q, Z_w, A_t, B_t, Sz
 ABPts_t == ABPts(T_t, Ep_t, Rh_t) \cup ABPtsB({R(250, 1), R(5963, 20), R(650, 1)}, Ep_q, Rh_q, {R(1, 4), R(2, 1), R(1, 100)})
 
 ProdPts_t == ProdPts({"lap", "eap", "dap"}, {R(0, 1), R(1, 1000), R(1, 100), R(1, 10), R(1, 4)},
-                     {R(5463, 20), R(5963, 20), R(350, 1)}, {R(392, 5), R(60, 1)},
+                     {R(5463, 20), R(350, 1)}, {R(392, 5)},
                      {R(997, 1), R(958, 1)}, {R(0, 1), R(1, 10), R(-1, 5)}, {R(-3, 10), R(-1, 5), R(0, 1), R(1, 10)})
 DHPts_t == LawPts_t \cup ABPts_t \cup ProdPts_t
 =============================================================================
